@@ -14,6 +14,7 @@ func init() {
 	registerAnte("C17", monC17)
 	registerAnte("C14", monC14ante)
 	registerAnte("C06", monC06)
+	registerAnte("C10", monC10params)
 }
 
 // ---------- message expressions ----------
@@ -419,6 +420,13 @@ func coveredDenom(gasPrices []gasPrice, t *txOp, gas uint64) (denom string, fee 
 func pricesAfter(gasPrices []gasPrice, c *ctxStep) []gasPrice {
 	if c.op[0] == "setprices" && len(c.op) > 1 && c.res[0] == "ok" {
 		gasPrices = nil
+		if c.op[1] == "-" {
+			// an empty list: the default prices apply
+			for _, gp := range defaultGasPrices {
+				gasPrices = append(gasPrices, gasPrice{gp.denom, gp.num})
+			}
+			return gasPrices
+		}
 		for _, kvp := range strings.Split(c.op[1], ",") {
 			kv := strings.SplitN(kvp, ":", 2)
 			gasPrices = append(gasPrices, gasPrice{kv[0], dec18(kv[1])})
@@ -435,12 +443,11 @@ func monC16(tr *Trace, br map[string]int) (out []Violation) {
 	walk(tr, func(c *ctxStep) {
 		if c.op[0] == "setprices" && len(c.op) > 1 && c.res[0] == "ok" {
 			// governance changed the settlement gas prices: the list is kept as given
-			gasPrices = nil
-			for _, kvp := range strings.Split(c.op[1], ",") {
-				kv := strings.SplitN(kvp, ":", 2)
-				gasPrices = append(gasPrices, gasPrice{kv[0], dec18(kv[1])})
-			}
+			gasPrices = pricesAfter(gasPrices, c)
 			br["c16:prices-changed"]++
+			if c.pre.Fee != nil && c.post.Fee != nil && c.pre.Fee.Cmp(c.post.Fee) != 0 {
+				out = append(out, viol("C16", "oracle-percentage-replaced", c.i, "a change of the gas prices (%s) turned the configured oracle percentage %s into %s", strings.Join(c.op, " "), c.pre.Fee, c.post.Fee))
+			}
 			return
 		}
 		if c.op[0] != "tx" {
